@@ -3,4 +3,4 @@
 From SE Require Import Expr.IO Eval.EvalRun.
 Require Import ExtrOcamlBasic.
 Extraction "semodel.ml" N_of_digits Z_of_digits digits_of_N tc_lookup
-  eval_expr lambda_expr history history_stale_map g_pow_E g_mul_E g_pw_open.
+  eval_expr lambda_expr history history_stale_map g_cse_shadow g_pow_E g_mul_E g_pw_open.
